@@ -3,7 +3,7 @@
 import json, os, subprocess
 VERIF = os.path.dirname(os.path.abspath(__file__))
 CLAIMED = {
- "C07": ("exploration", "4.4", "seeded syscall-level interleaving search of 2-3 GitFile writers/readers with injected errors, plus exhaustive k-th-syscall fault sweep over 21 dulwich routines that write through the lock protocol; lock ownership tracked from the system calls, invariants checked at every call",
+ "C07": ("exploration", "4.4", "seeded syscall-level interleaving search of 2-3 GitFile writers/readers with injected errors, plus exhaustive k-th-syscall fault sweep over 35 dulwich routines that write through the lock protocol (index incl. locked_index, refs, packed-refs, config, loose objects, pack data and index versions 1-3 written by name, .keep, bitmaps, commit-graph by both writers, multi-pack-index, alternates, shallow, named files; six of them again under core.sharedRepository); lock ownership tracked from the system calls, invariants checked at every call",
          "real kernel O_EXCL/rename semantics; pre-emption only at intercepted syscalls; lock-file unlink itself never failed",
          "deterministic simulation: baton-passing actors over simfs, seeded schedules (uniform/burst/PCT/targeted) + fault injection, per-call invariants"),
  "C08": ("exploration", "4.5", "seeded syscall-level interleaving search of 2-3 actors (own DiskRefsContainer/Repo each) over the ref API and committers on one branch; recorded invoke/return histories checked for linearizability against a sequential ref-map model by brute force, final on-disk state read by a fresh process; commit scenarios check every acknowledged commit is an ancestor of the final tip",
